@@ -303,17 +303,22 @@ func (n *Node) Head() string {
 		if n.Grouping != "" {
 			g = " " + n.Grouping
 		}
+		switch {
+		case n.Child.Kind == "sel" && n.Child.Offset != 0:
+			return "aggregation over offset-selector: " + n.Op + g + " of " + short(n.Child)
+		case n.Child.Kind == "bin" && n.Child.Match != "":
+			return "aggregation over vector-matching: " + n.Op + g + " of " + short(n.Child)
+		}
 		return "aggregation " + n.Op + " of " + short(n.Child) + g
 	case "bin":
 		op := n.Op
 		if n.Bool {
 			op += " bool"
 		}
-		m := ""
 		if n.Match != "" {
-			m = " " + n.Match
+			return "vector-matching " + n.Match + ": " + short(n.L) + "," + short(n.R) + ":" + op
 		}
-		return "binary" + m + " " + short(n.L) + "," + short(n.R) + ":" + op
+		return "binary " + short(n.L) + "," + short(n.R) + ":" + op
 	}
 	return short(n)
 }
